@@ -1161,7 +1161,7 @@ static Case genRange() {
   const ll ctor = *rng(0, 9) < 6 ? 2 : *rng(0, 1);     // 3-argument form most of the time
   // the ranges of one case share what is compiled into the kernel (start == 0, step == +-1), so they share the JIT builds
   const bool zeroStart = *rng(0, 2) == 0;
-  const bool unitStep = *rng(0, 9) < 5;
+  const bool unitStep = *rng(0, 9) < 4;
   const bool negative = *rng(0, 1) == 1;
   const ll nranges = *rng(1, 3);
   for (ll j = 0; j < nranges; ++j) {
@@ -1176,7 +1176,7 @@ static Case genRange() {
     ll end;
     const ll st = step == 0 ? 1 : step;
     if (dir == 0) end = start - st * len;                 // wrong direction: empty
-    else end = start + st * len - (*rng(0, 1) ? 0 : (st > 0 ? *rng(0, st - 1) : -*rng(0, -st - 1)));
+    else end = start + st * len - (*rng(0, 3) == 0 ? 0 : (st > 0 ? *rng(0, st - 1) : -*rng(0, -st - 1)));   // mostly not a multiple of the step
     s.a = {mode, ctor, start, end, step, ts, k};
     c.push_back(s);
   }
